@@ -68,4 +68,28 @@ def handle (toks : List String) : String :=
     | _, _ => "badinput"
   | _ => "badinput"
 
+/-! ### Chain sentences (stream `tokchain`)
+
+One word `a` (word cost `w`), one connection cost `c`: the lattice of `a`×`n` has exactly one path, and token `i` carries the
+accumulated cost `(i+1)·(w+c)`.  The driver answers `tokchain` lines with this closed form (the list-based lattice model is
+quadratic in the sentence length, and the cases have 30 000 – 65 000 characters); the `#guard`s below evaluate the lattice
+model itself on short chains and compare it with the closed form (tests, labelled as such). -/
+
+def chainEnv (n : Nat) (w c : Int) : LatEnv :=
+  { len := n
+    conn := fun _ _ => c
+    skip := fun _ => 0
+    cands := fun p =>
+      if p < n then [{ endWord := p + 1, wordId := 0, lexType := 0, leftId := 0, rightId := 0, wordCost := w }] else [] }
+
+def chainClosed (n : Nat) (w c : Int) : List Int := (List.range n).map fun (i : Nat) => (Int.ofNat i + 1) * (w + c)
+
+def chainModel (n : Nat) (w c : Int) : Option (List Int) :=
+  (tokensOf (buildLattice16 (chainEnv n w c))).map fun ts => ts.map (·.node.minCost)
+
+#guard chainModel 40 32767 1 == some (chainClosed 40 32767 1)
+#guard chainModel 25 (-32768) (-300) == some (chainClosed 25 (-32768) (-300))
+#guard chainModel 12 5 (-7) == some (chainClosed 12 5 (-7))
+#guard chainModel 1 0 0 == some [0]
+
 end Vibrato.Driver.Tok16
